@@ -9,11 +9,11 @@ use crate::rng::mix;
 fn plan(prop: &str, tier: &str) -> Vec<(&'static str, usize)> {
     let t = tier == "thorough";
     match prop {
-        "C01" => vec![("c01", if t { 3000 } else { 400 }), ("c01dense", if t { 3000 } else { 400 }), ("c01bulk", if t { 24 } else { 3 })],
-        "C05" => vec![("c05", if t { 4000 } else { 600 }), ("c01bulk", if t { 8 } else { 1 })],
-        "C07" => vec![("c07", if t { 4000 } else { 600 })],
-        "C08" => vec![("c08", if t { 6000 } else { 800 })],
-        "C09" => vec![("c09", if t { 6000 } else { 800 }), ("c09backlog", if t { 48 } else { 6 })],
+        "C01" => vec![("c01", if t { 12000 } else { 400 }), ("c01dense", if t { 12000 } else { 400 }), ("c01bulk", if t { 32 } else { 3 })],
+        "C05" => vec![("c05", if t { 16000 } else { 600 }), ("c01bulk", if t { 8 } else { 1 })],
+        "C07" => vec![("c07", if t { 16000 } else { 600 })],
+        "C08" => vec![("c08", if t { 24000 } else { 800 })],
+        "C09" => vec![("c09", if t { 24000 } else { 800 }), ("c09backlog", if t { 96 } else { 6 })],
         _ => vec![],
     }
 }
@@ -85,7 +85,7 @@ pub fn run(prop: &'static str, tier: &str, seed: u64) -> i32 {
     }
     if prop == "C07" {
         // the same accept/reject rule with a registration being removed while other threads append into its context
-        let rounds = if tier == "thorough" { 96u64 } else { 12 };
+        let rounds = if tier == "thorough" { 480u64 } else { 12 };
         let per = 6u64;
         let batches: Vec<Vec<serde_json::Value>> = run_cases((rounds / per) as usize, 4, move |b| crate::checks_e2::run_worker("c07race", seed ^ 0xc07, b as u64 * per, per));
         for batch in batches {
